@@ -1,0 +1,50 @@
+/*
+Verification hooks (off unless built with -DYARA_VERIF).
+
+Nothing in this header is used by a normal build: every use site in the
+library is guarded by #ifdef YARA_VERIF.
+*/
+
+#ifndef YR_VERIF_H
+#define YR_VERIF_H
+
+#ifdef YARA_VERIF
+
+#include <stddef.h>
+#include <stdint.h>
+
+// H1: initial size of the compiler's arena buffers (0 = library default).
+extern size_t yr_verif_arena_initial_size;
+
+// H1: when non-zero, arena buffers grow to exactly the size needed.
+extern int yr_verif_arena_exact_growth;
+
+// H2: virtual clock. When non-NULL yr_stopwatch_elapsed_ns returns its value.
+extern uint64_t (*yr_verif_clock)(void* stopwatch);
+
+// H3: per-thread work counters and an optional callback invoked at fixed
+// points that lie between critical sections.
+extern __thread uint64_t yr_verif_bytes_scanned;
+extern __thread uint64_t yr_verif_vm_instructions;
+extern __thread uint64_t yr_verif_clock_queries;
+
+#define YR_VERIF_POINT_SCAN_START   1
+#define YR_VERIF_POINT_BLOCK_BEGIN  2
+#define YR_VERIF_POINT_BLOCK_END    3
+#define YR_VERIF_POINT_EXEC_START   4
+#define YR_VERIF_POINT_IMPORT       5
+#define YR_VERIF_POINT_MATCH_RULE   6
+#define YR_VERIF_POINT_REPORT       7
+
+extern void (*yr_verif_point)(int point, void* scanner);
+
+#define YR_VERIF_AT(point, scanner) \
+  do                                \
+  {                                 \
+    if (yr_verif_point != NULL)     \
+      yr_verif_point(point, scanner); \
+  } while (0)
+
+#endif  // YARA_VERIF
+
+#endif
